@@ -234,6 +234,26 @@ def _as_secs_f64(ctx, a, c):
     return z3.ToReal(deref(ctx, a[0])) / z3.RealVal(1000000000)
 
 
+@model("Duration::as_millis", doc="std::time: whole milliseconds (truncating), as u128")
+def _as_millis(ctx, a, c):
+    return z3.Int2BV(deref(ctx, a[0]) / 1000000, 128)
+
+
+@model("Duration::as_micros", doc="std::time: whole microseconds (truncating), as u128")
+def _as_micros(ctx, a, c):
+    return z3.Int2BV(deref(ctx, a[0]) / 1000, 128)
+
+
+@model("Duration::as_nanos", doc="std::time: nanoseconds, as u128")
+def _as_nanos(ctx, a, c):
+    return z3.Int2BV(deref(ctx, a[0]), 128)
+
+
+@model("Duration::is_zero", doc="std::time")
+def _dur_is_zero(ctx, a, c):
+    return deref(ctx, a[0]) == 0
+
+
 # ---- Arc<Mutex<T>> / Weak --------------------------------------------------------------------------
 class SharedV:
     """Arc<parking_lot::Mutex<T>>: one cell, a lock flag, liveness of the strong side"""
